@@ -43,10 +43,10 @@ func (f *Isqrt) Call(s *slip.Scope, args slip.List, depth int) (result slip.Obje
 	slip.CheckArgCount(s, depth, f, args, 1, 1)
 	switch ta := args[0].(type) {
 	case *slip.Bignum:
-		result = (*slip.Bignum)((*big.Int)(ta).Sqrt((*big.Int)(ta)))
+		result = (*slip.Bignum)(new(big.Int).Sqrt((*big.Int)(ta)))
 	case *slip.LongFloat:
 		var z big.Int
-		bi, _ := (*big.Float)(ta).Sqrt((*big.Float)(ta)).Int(&z)
+		bi, _ := new(big.Float).Sqrt((*big.Float)(ta)).Int(&z)
 		result = (*slip.Bignum)(bi)
 	case slip.Real:
 		rv := ta.RealValue()
